@@ -49,12 +49,15 @@ ASSUMPTIONS = [
 ]
 
 PY_FILES = ["modA.py", "modB.py", "pkgA/modA.py", "pkgA/modB.py", "pkgA/subC/modA.py", "libB/modAB.py", "libB/Util.py",
-            "pkgA/Util.py", "Main.py"]
+            "pkgA/Util.py", "Main.py", "lib C/mod \u00dc.py", "pkg-D/mod.E.py"]
 JS_FILES = ["Web/appJ.js", "Web/modA.js", "libB/modAB.js"]
+JAVA_FILES = ["app/SrvA.java", "app/SrvAB.java", "libB/Util.java", "pkgA/modA.java"]
+JAVA_MODS = [["public", "static"], ["public"], ["private"], ["protected", "static", "final"], [], ["static"], ["public", "final"]]
+LANG_OF_EXT = {".py": "python", ".js": "javascript", ".java": "java"}
 NAMES = ["run", "runner", "main", "handle", "handler", "start", "stop", "proc", "load", "save", "task", "do_run"]
 DECOS = [["deco"], ["wrapD"], ["deco", "wrapD"], ["cached"]]
 ATTR_TOKENS = ["staticmethod", "classmethod", "deco", "wrapD", "async", "cached", "static", "method", "class", "wrap",
-               "absent", "dec"]
+               "absent", "dec", "public", "private", "final", "pub", "protected"]
 
 
 DISCRIMINATORS = ["lang-substring", "lang-ignored", "unit_name-ignored", "unit_name-exact", "unit_path-ignored",
@@ -72,18 +75,20 @@ def case_strategy(with_js=True):
     @st.composite
     def project(draw):
         nfiles = draw(st.sampled_from([2, 2, 3, 3, 4]))
-        use_js = with_js and draw(st.integers(0, 3)) == 0
+        use_js = with_js and draw(st.integers(0, 3)) == 1
+        use_java = with_js and draw(st.integers(0, 4)) == 1
         pool = list(PY_FILES)
         paths = []
-        for _ in range(nfiles - (1 if use_js else 0)):
+        for _ in range(max(1, nfiles - (1 if use_js else 0) - (1 if use_java else 0))):
             p = draw(st.sampled_from(pool))
             pool.remove(p)
             paths.append(p)
         if use_js:
             paths.append(draw(st.sampled_from(JS_FILES)))
+        if use_java:
+            paths.append(draw(st.sampled_from(JAVA_FILES)))
         nmeth = draw(st.integers(max(6, len(paths)), 10))
-        files = [{"path": p, "lang": "javascript" if p.endswith(".js") else "python", "init": None, "methods": []}
-                 for p in paths]
+        files = [{"path": p, "lang": LANG_OF_EXT[os.path.splitext(p)[1]], "init": None, "methods": []} for p in paths]
         M = {}
         # distribute methods: one per file first, then random
         owners = list(range(len(files))) + [draw(st.integers(0, len(files) - 1)) for _ in range(nmeth - len(files))]
@@ -94,10 +99,13 @@ def case_strategy(with_js=True):
             name = draw(st.sampled_from(avail))
             used_names[fi].add(name)
             if f["lang"] == "javascript":
-                kind = draw(st.sampled_from(["jsfunc", "jsfunc", "jsfunc", "jsasync"]))
-                attrs = ["async"] if kind == "jsasync" else []
-                M[mid] = {"name": name, "kind": kind, "attrs": attrs, "file": f["path"], "cls": None, "outer": None,
-                          "calls": []}
+                kind = draw(st.sampled_from(["jsfunc", "jsfunc", "jsfunc", "jsasync", "jsstatic"]))
+                attrs = {"jsasync": ["async"], "jsstatic": ["static"]}.get(kind, [])
+                M[mid] = {"name": name, "kind": kind, "attrs": attrs, "file": f["path"],
+                          "cls": "C%d" % fi if kind == "jsstatic" else None, "outer": None, "calls": []}
+            elif f["lang"] == "java":
+                M[mid] = {"name": name, "kind": "javameth", "attrs": list(draw(st.sampled_from(JAVA_MODS))), "file": f["path"],
+                          "cls": None, "outer": None, "calls": []}
             else:
                 kind = draw(st.sampled_from(["func"] * 8 + ["meth"] * 3 + ["smeth"] * 2 + ["cmeth", "dfunc", "dfunc", "afunc",
                                             "adfunc", "dsmeth", "inner", "inner"]))
@@ -129,7 +137,7 @@ def case_strategy(with_js=True):
                           "calls": []}
             f["methods"].append(mid)
         # nested functions are emitted inside their outer: `cls` of an inner is None but it lives in the outer's body
-        callable_kinds = ("func", "meth", "smeth", "cmeth", "jsfunc")
+        callable_kinds = ("func", "meth", "smeth", "cmeth", "jsfunc", "jsstatic", "javameth")
 
         def may_call(caller_file, caller_mid, c, imported):
             cm = M[c]
@@ -139,12 +147,16 @@ def case_strategy(with_js=True):
                 return caller_mid is not None and cm["outer"] == caller_mid
             if cm["kind"] not in callable_kinds:
                 return False
+            if cm["kind"] == "javameth" and "static" not in cm["attrs"]:
+                return False
             if cf["lang"] != tf["lang"]:
                 return False
             if cm["file"] == caller_file:
                 return True
-            if cf["lang"] == "javascript":
+            if cf["lang"] != "python":
                 return False
+            if not all(part.isidentifier() for part in cm["file"][:-3].split("/")):
+                return False            # not importable (space, dash, dot in the path)
             sym = cm["cls"] or cm["name"]
             # the imported symbol must not clash with a name defined in the importing file or imported from elsewhere
             defined = {M[x]["name"] for x in cf["methods"]} | {M[x]["cls"] for x in cf["methods"] if M[x]["cls"]}
@@ -176,6 +188,8 @@ def case_strategy(with_js=True):
         for f in files:
             if draw(st.integers(0, 9)) < 7:
                 f["init"] = []
+                if f["lang"] == "java":
+                    continue            # the initialiser of a Java unit holds the package statement only
                 if f["lang"] == "python" and draw(st.integers(0, 3)) == 1:
                     f["init_style"] = "main_guard"
                 for _ in range(draw(st.sampled_from([0, 1, 1, 2]))):
@@ -382,9 +396,10 @@ def case_strategy(with_js=True):
         if draw(st.integers(0, 79)) == 41:
             settings.append({"path": draw(st.sampled_from(["subM/entry.yaml", "subM/notentry.yaml", "go-entry.yaml"])),
                              "kind": "not-a-rule-list", "text": "lang: python\nmethod_list: [main]\n"})
-        langs = "python,javascript" if any(f["lang"] == "javascript" for f in spec["files"]) else "python"
-        if langs == "python" and draw(st.integers(0, 7)) == 0:
-            langs = "python,javascript"
+        present = {f["lang"] for f in spec["files"]}
+        langs = ",".join(l for l in model.LANGS if l in present)
+        if langs == "python" and draw(st.integers(0, 7)) == 3:
+            langs = draw(st.sampled_from(["python,javascript", "python,javascript,java"]))
         assert len({f["path"] for f in settings}) == len(settings)
         return {"kind": "project", "langs": langs, "files": files, "methods": facts,
                 "units": [{"path": f["path"], "lang": f["lang"], "has_init": f["init"] is not None,
@@ -662,7 +677,8 @@ def check_case(case, col=None):
             pass        # already reported under entry-set; P3 faithfully follows the (wrong) entry set
         else:
             kind = "extra" if rset - E else "missing"
-            out.append(((ID, "p3-roots", kind), "P3 started from %s, expected %s" % (sorted(map(str, rset)), fmt(E))))
+            out.append(((ID, "p3-roots", kind), "P3 started from %s, expected %s" % (
+                sorted(name_of(x) if x in by_mid else "stmt %d" % -x for x in rset), fmt(E))))
     analysed = {sid_to_mid.get(x, -x) for x in obs["analysed"]}
     basis_E = E if got == E else got
     basis_R = model.reachable(rcase, basis_E)
@@ -758,10 +774,17 @@ def labels_of(case, info):
         L.append("settings:empty-or-comment-file")
     if "javascript" in [u["lang"] for u in case["units"]]:
         L.append("project:has-js")
+    if "java" in [u["lang"] for u in case["units"]]:
+        L.append("project:has-java")
     if any(u.get("init_style") == "main_guard" for u in case["units"]):
         L.append("project:init-under-main-guard")
     if any(not u["has_init"] for u in case["units"]):
         L.append("project:file-without-init")
+    if any(" " in u["path"] or "-" in u["path"] for u in case["units"]):
+        L.append("project:unusual-file-name")
+    bases = [os.path.basename(u["path"]) for u in case["units"]]
+    if len(bases) != len(set(bases)):
+        L.append("project:same-base-name-in-two-dirs")
     names = [m["name"] for m in case["methods"] if m["name"] != model.INIT]
     if len(names) != len(set(names)):
         L.append("project:duplicate-method-names")
